@@ -4,9 +4,11 @@ import json, os
 V = os.path.dirname(os.path.dirname(os.path.abspath(__file__)))
 props = [json.loads(l) for l in open(f'{V}/properties.jsonl')]
 BASE = "cd /repo && /venv/bin/python -m pytest -ra -q -p no:cacheprovider --timeout=900 --continue-on-collection-errors"
-TB = ("pyvc executor and SMT encoding; z3 5.1 / cvc5 1.0.3; assumed (L0) contracts of builtins / stdlib / third-party libraries as listed in the evidence "
-      "file (A-repr, A-sorted, A-split, A-sha, A-path, A-fs ...); callees taken by contract are verified under their own contract id; "
-      "Python ints mathematical, floats opaque.")
+TB = ("Trusted: pyvc executor and SMT encoding; cvc5 1.0.3 / z3 5.1 (an unsat counts only from cvc5, or from two z3 configurations together with no sat anywhere - "
+      "z3 alone was seen to be unsound on sequence + quantifier problems, DESIGN.md 8.3); Lean 4.33 + Mathlib for the L2 lemma of C03; assumed (L0) contracts of builtins / "
+      "stdlib / third-party libraries as listed in the evidence file (A-repr, A-sorted, A-split, A-sha, A-path, A-fs, A-dict, A-re, A-json, A-np, A-pd, A-nx, A-time ...); "
+      "callees taken by contract are verified under their own contract id unless the evidence lists them as assumed; Python ints mathematical, floats opaque; single thread. "
+      "Bounded stand-ins (native runs of the real code) are listed under coverage.bounded / extra_checks in the evidence and are never counted as proved.")
 CLAIMED = json.load(open(f'{V}/tools/claimed.json'))
 NA = json.load(open(f'{V}/tools/not_applicable.json'))
 checks = []
@@ -20,7 +22,7 @@ for pid, c in CLAIMED.items():
         "engine": "pyvc",
         "level_claimed": {"category": c.get("category", "proof"), "text": c["text"], "design_ref": c.get("design_ref", f"DESIGN.md section 4 ({pid}) and section 8")},
         "level_note": c.get("note", TB),
-        "technique": c.get("technique", "contract-based deductive verification: sidecar contracts on the real functions, VCs generated from the AST by symbolic execution, discharged by z3 || cvc5; bounded search on the real code only as the labelled stand-in for lost proofs"),
+        "technique": c.get("technique", "contract-based deductive verification: sidecar contracts (pre/postconditions, loop invariants, frames over a ghost file system, ghost call traces) on the real functions of /repo; verification conditions generated from the current source by symbolic execution of the AST on every run, one per path x clause, discharged by cvc5 / z3 (an unsat needs cvc5 or two z3 configurations); failing obligations are replayed on the real code; bounded native stand-ins only where labelled"),
     })
 na = []
 for p in props:
